@@ -30,6 +30,14 @@ Example growth_bin_example :
   Qlt_le_dec (growth_bin Qops 1 1 (supersat Qops (2#100) (3#100) (1#4) 1 1) 1 1) 0 = left eq_refl.
 Proof. vm_compute. split; reflexivity. Qed.
 
+(* ExtraGibbsModel: database energy -40 per mole of atoms, GE = 6, formula unit of 11 atoms *)
+Example extra_energy_example : extra_gm Qops (-40) 6 = -34 /\ extra_g Qops (-40) 6 11 = -374 /\ (-374) / 11 == -34.
+Proof. vm_compute. repeat split; reflexivity. Qed.
+(* adding GE to the formula energy instead ("ast * n + GE") would make the per-atom energy seen by the solver
+   -40 + 6/11, not -34: the two energy properties then describe different precipitates unless n = 1 *)
+Example extra_energy_per_formula_unit_differs : ~ ((-40) * 11 + 6) / 11 == extra_gm Qops (-40) 6.
+Proof. vm_compute. discriminate. Qed.
+
 (* lookup-table bookkeeping: two unstable classes, then stable ones *)
 Example lookup_fix_example :
   lookup_fix Qops [-1; -1; 3; 4] [-1; -1; 7; 8] = (1%nat, ([3; 3; 3; 4], [7; 7; 7; 8])).
